@@ -18,9 +18,29 @@ from .core import Sym, SymBool, HarnessError, lift, to_real, coerce, is_int, _co
 INT_DTYPES = ('int', 'int32', 'int64', 'intc', 'int_', 'long')
 
 
+class DType:
+    """Stands for np.double / np.int32 ...: usable as a dtype tag and as a scalar constructor."""
+
+    def __init__(self, kind, name):
+        self._kind = kind
+        self.__name__ = name
+
+    def __call__(self, v=0):
+        if self._kind == 'i':
+            return sym_int(v)
+        if isinstance(v, Sym):
+            return Sym(to_real(v.t)) if v.is_int else v
+        return float(v)
+
+    def __repr__(self):
+        return 'shim.' + self.__name__
+
+
 def _dtype_kind(dtype):
     if dtype is None:
         return 'f'
+    if isinstance(dtype, DType):
+        return dtype._kind
     if dtype is int:
         return 'i'
     if dtype is float:
@@ -265,15 +285,13 @@ class NPShim:
             return a
         return self.array(a, dtype)
 
-    def double(self, v=0.0):
-        if isinstance(v, Sym):
-            return Sym(to_real(v.t)) if v.is_int else v
-        return float(v)
-
-    float64 = double
-
-    def int32(self, v=0):
-        return sym_int(v)
+    double = DType('f', 'double')
+    float64 = DType('f', 'float64')
+    float32 = DType('f', 'float32')
+    float_ = DType('f', 'float_')
+    int32 = DType('i', 'int32')
+    int64 = DType('i', 'int64')
+    int_ = DType('i', 'int_')
 
     def sqrt(self, v):
         return self._m.sqrt(v)
